@@ -255,7 +255,7 @@ PROPS["C07"] = {
         lane("TestAccept", "accept", 400, 2500, shards=16),
         lane("TestGarbage", "garbage", 1500, 8000, shards=16, must_classes=["kind:mutated", "kind:bcl", "kind:bytes"]),
         lane("TestSemantic", "semantic", 400, 2500, shards=16, must_classes=["semantic:cross-file-cycle", "semantic:unknown-type", "semantic:required-and-optional", "semantic-at:oneof", "semantic-at:request", "semantic-at:inline-object", "semantic-at:entity-event", "semantic:field:unknown-enum"]),
-        lane("TestAttributes", "attributes", 1600, 8000, shards=16, must_classes=["depth:2", "depth:3", "block:method", "block:entity", "block:field", "block:service", "block:topic", "assignment:accepted"]),
+        lane("TestAttributes", "attributes", 1600, 4000, shards=16, must_classes=["depth:2", "depth:3", "block:method", "block:entity", "block:field", "block:service", "block:topic", "assignment:accepted"]),
         fuzz("FuzzCompile"),
     ],
 }
@@ -387,7 +387,7 @@ PROPS["C16"] = {
         lane("TestKinds", "kinds", 0, 0, norapid=True),
         lane("TestPipeline", "pipeline", 200, 1200, shards=16, must_classes=["service", "entity", "path-parameter", "path-parameter:odd-name", "path-parameter:enum"]),
         lane("TestListMethods", "listmethods", 300, 3000, shards=8, must_classes=["list-verb:GET", "list-verb:POST", "query-without-response-object", "nested-object", "rule:sorting", "rule:filtering"]),
-        lane("TestAttributes", "attributes", 1200, 8000, shards=16, min_frac=0.05, must_classes=["assignment:accepted", "block:method", "block:entity"]),
+        lane("TestAttributes", "attributes", 1200, 4000, shards=16, min_frac=0.05, must_classes=["assignment:accepted", "block:method", "block:entity"]),
     ],
 }
 
